@@ -247,7 +247,9 @@ class _CommonFile:
         records = self._records
         existing = key in records
         records[key] = value
-        if not existing:
+        if not existing and (_RECORD, key) not in self._source:
+            # NOTE: a deleted key leaves its token behind, so that re-adding the key
+            #       puts it back at its old position instead of writing it twice.
             self._source.append((_RECORD, key))
         return existing
 
